@@ -363,3 +363,23 @@ ADDENDA8 = {
 }
 for _k, _v in ADDENDA8.items():
     CLAIMS[_k]["text"] = CLAIMS[_k]["text"].rstrip() + " " + _v
+
+ADDENDA9 = {
+    "C01": "Round 10: no condition given to a constructor is tested for truth while the chain is folded; a predicate instance is judged by its verdict; a domain that is given is the domain (the symbol graph stands in for None only).",
+    "C02": "Round 10: a node met again for bound values repeats the answer recorded in the bindings.",
+    "C03": "Round 10: the evaluation parent is written by evaluations only; shares NODE-FLAG.",
+    "C04": "Round 10: DAO-VALUE-TRUTH covers every dynamic field read.",
+    "C06": "Round 10: the fields a table leaves to its ancestors are those of every ancestor.",
+    "C07": "Round 10: != is the null-safe inequality; an attribute in condition position is translated by the Python truth of its value.",
+    "C08": "Round 10: expression nodes are told apart by identity; shares COND-FOLD.",
+    "C09": "Round 10: shares DOMAIN-GIVEN.",
+    "C11": "Round 10: type filter for optional attributes; a nested select is selected once, as the variable it is resolved on.",
+    "C13": "Round 10: a failed registration fails the construction; one table of singleton instances per process; shares DOMAIN-GIVEN.",
+    "C14": "Round 10: a managed collection met through an instance is bound to that instance.",
+    "C15": "Round 10: the field of a descriptor class is the field managed by exactly that class.",
+    "C16": "Round 10: a write the container rejects is rejected before anything is recorded.",
+    "C18": "Round 10: shares SG-SINGLETON.",
+    "C19": "Round 10: the documented errors accept the attribute writes that raising and propagating perform.",
+}
+for _k, _v in ADDENDA9.items():
+    CLAIMS[_k]["text"] = CLAIMS[_k]["text"].rstrip() + " " + _v
